@@ -237,20 +237,19 @@ def optEpoch (s : Str) : Str :=
     else s
   | [] => s
 
+/-- `((a|b|rc)(0|[1-9][0-9]*))?` -/
+def preStage (r : Str) : Str :=
+  match r with
+  | 'a' :: _ => optGroup "a".toList r
+  | 'b' :: _ => optGroup "b".toList r
+  | 'r' :: _ => optGroup "rc".toList r
+  | _ => r
+
 /-- `pep440_ptrn.fullmatch(version) is not None` -/
 def isPep440 (s : Str) : Bool :=
   match num (optEpoch s) with
   | none => false
-  | some r =>
-    let r := dotNums r.length r
-    let r := match r with
-      | 'a' :: _ => optGroup "a".toList r
-      | 'b' :: _ => optGroup "b".toList r
-      | 'r' :: _ => optGroup "rc".toList r
-      | _ => r
-    let r := optGroup ".post".toList r
-    let r := optGroup ".dev".toList r
-    r.isEmpty
+  | some r => (optGroup ".dev".toList (optGroup ".post".toList (preStage (dotNums r.length r)))).isEmpty
 
 /-- the metadata block as `_verify_metadata` reads it (`.get(…, default)`) -/
 structure Meta where
